@@ -54,6 +54,9 @@ def _layout(arr, layout):
         return np.ascontiguousarray(arr[::-1])[::-1]
     if layout == "transposed":
         return np.ascontiguousarray(arr.T).T
+    if layout == "broadcast" and arr.ndim >= 2:
+        # rows are equal by construction: a zero-stride view of the first one
+        return np.broadcast_to(np.ascontiguousarray(arr[0]), arr.shape)
     if layout == "colslice" and arr.ndim >= 2:
         wide = np.zeros(arr.shape[:-1] + (arr.shape[-1] + 2,), arr.dtype)
         wide[..., 1:-1] = arr
@@ -69,6 +72,10 @@ def _make(c):
         flat = np.zeros(n, src)
         flat["real"] = [v[0] for v in c["values"]]
         flat["imag"] = [v[1] for v in c["values"]]
+    elif c["src"] in (3, 4):
+        flat = np.array([float.fromhex(v[0]) for v in c["values"]], np.float64).astype(src)
+    elif c["src"] == 5:
+        flat = np.zeros(n, src)
     else:
         flat = np.array([complex(float.fromhex(v[0]), float.fromhex(v[1])) for v in c["values"]], np.complex128).astype(src)
     shape = tuple(c["shape"])
@@ -266,6 +273,20 @@ def gen_cases(rng, tier):
         c = {"k": "conv", "src": src, "dst": dst, "shape": shape, "values": vals, "layout": rng.choice(layouts), "cls": cls,
              "scalar": shape == [] and rng.random() < 0.5}
         cases.append(c)
+        if len(shape) >= 2 and shape[0] >= 1 and rng.random() < 0.5:
+            # the same rows as a broadcast (zero-stride) view
+            row = n // shape[0]
+            cases.append(dict(c, values=(vals[:row] * shape[0]), layout="broadcast"))
+    # a value whose own dtype is not a supported one, requested as that same dtype: still a TypeError
+    for _ in range(60 if not big else 600):
+        code = rng.choice([3, 4, 5])
+        shape = _shape(rng)
+        n = 1
+        for s_ in shape:
+            n *= s_
+        vals = [[float(rng.randrange(-5, 6)).hex(), float(0).hex()] for _ in range(n)]
+        cases.append({"k": "conv", "src": code, "dst": code, "shape": shape, "values": vals, "layout": "C", "cls": "unsup",
+                      "scalar": shape == [] and rng.random() < 0.5})
     return cases
 
 
